@@ -98,6 +98,13 @@ class C16(Spec):
                     if any(w[0] not in names for w in ws): lost.add(op)
             # every record on disk decodes to what it was written for
             for (t, k, d, o) in m["recs"]:
+                # whatever the log holds is a sequence of whole records: the time field of each is an operation id this run issued
+                # (renamed `#NNNN` by the canonicaliser) — bytes that land between two records shift everything behind them
+                if not (t.startswith("#") or re.fullmatch(r"1[0-9]{18}", t) or t == "0"):
+                    if "log-is-not-a-sequence-of-records" not in seen:
+                        seen.add("log-is-not-a-sequence-of-records")
+                        fails.append(Failure("log-is-not-a-sequence-of-records", f"after {inp[:40]}: record (time {t}, key id {k}, db id {d}, kind {o}) is no record any operation wrote"))
+                    break
                 want = intent.get(t)
                 if not want: continue
                 dbname = m["idname"].get(d)
@@ -334,6 +341,9 @@ def crash_stage(spec, tier, only=None):
             else:
                 mt = parse_meta(p["lines"]); names = list(mt["idname"].values())
                 for (t, k, dd, o) in mt["recs"]:
+                    if not (t.startswith("#") or re.fullmatch(r"1[0-9]{18}", t) or t == "0"):
+                        cls = "log-is-not-a-sequence-of-records"; detail = f"record (time {t}, key id {k}, db id {dd}, kind {o}) is no record any operation wrote"
+                        break
                     want = intent.get(t)
                     if not want: continue
                     dbname = mt["idname"].get(dd); ok = False; dbok = False
